@@ -149,6 +149,9 @@ mod drop;
 mod hash;
 mod link;
 mod rc;
+#[cfg(cactusref_verif)]
+#[doc(hidden)]
+pub mod verif;
 
 // Doc modules
 #[cfg(any(doctest, docsrs))]
